@@ -51,7 +51,7 @@ func (c *fakeCAS) FindMissing(ctx context.Context, digests digest.Set) (digest.S
 		names = append(names, w.nameOf(d))
 	}
 	sort.Strings(names)
-	label := "cas.FindMissing(" + strings.Join(names, ",") + ")"
+	label := "cas.FindMissing(" + strings.Join(names, ",") + ")" + w.labelSuffix(ctx)
 	if ctx.Err() != nil {
 		// Deterministic: only ever called on the harness thread.
 		w.x.Point(label + "/cancelled")
@@ -59,11 +59,11 @@ func (c *fakeCAS) FindMissing(ctx context.Context, digests digest.Set) (digest.S
 	}
 	switch w.x.Choose(label, 3) {
 	case 1:
-		w.noteFault(label+"=unavailable", true)
+		w.noteFault(ctx, label+"=unavailable", true)
 		return digest.EmptySet, errInjected
 	case 2:
-		w.noteFault(label+"=cancelled", true)
-		w.cancelCurrent()
+		w.noteFault(ctx, label+"=cancelled", true)
+		cancelAction(ctx)
 		return digest.EmptySet, errCancelled
 	}
 	missing := digest.NewSetBuilder(digests.Length())
@@ -77,11 +77,20 @@ func (c *fakeCAS) FindMissing(ctx context.Context, digests digest.Set) (digest.S
 	return missing.Build(), nil
 }
 
-func (w *world) cancelCurrent() {
-	w.mu.Lock()
-	cur := w.cur
-	w.mu.Unlock()
-	if cur != nil && cur.cancel != nil {
+// labelSuffix tells the calls of concurrently running actions apart (labels
+// order the anonymous Put threads and must be unique among them).
+func (w *world) labelSuffix(ctx context.Context) string {
+	if w.multi {
+		if cur := actionOf(ctx); cur != nil {
+			return "@a" + string(rune('0'+cur.idx))
+		}
+	}
+	return ""
+}
+
+// cancelAction cancels the context of the action that ctx belongs to.
+func cancelAction(ctx context.Context) {
+	if cur := actionOf(ctx); cur != nil && cur.cancel != nil {
 		cur.cancel()
 	}
 }
@@ -89,7 +98,7 @@ func (w *world) cancelCurrent() {
 func (c *fakeCAS) Put(ctx context.Context, d digest.Digest, b buffer.Buffer) error {
 	w := c.w
 	name := w.nameOf(d)
-	label := "cas.Put(" + name + ")"
+	label := "cas.Put(" + name + ")" + w.labelSuffix(ctx)
 	batchLayer := name != "her"
 
 	// A Put that starts after its context was cancelled, or after a
@@ -111,20 +120,20 @@ func (c *fakeCAS) Put(ctx context.Context, d digest.Digest, b buffer.Buffer) err
 
 	switch w.x.Choose(label, 3) {
 	case 1:
-		w.noteFault(label+"=unavailable", batchLayer)
+		w.noteFault(ctx, label+"=unavailable", batchLayer)
 		w.mu.Lock()
 		w.failedCtx[ctx] = true
 		w.mu.Unlock()
 		b.Discard()
 		return errInjected
 	case 2:
-		w.noteFault(label+"=cancelled", batchLayer)
+		w.noteFault(ctx, label+"=cancelled", batchLayer)
 		w.mu.Lock()
 		w.failedCtx[ctx] = true
 		w.mu.Unlock()
 		// Cancel the action's context *before* returning, so that
 		// everything that is woken up by this return sees it.
-		w.cancelCurrent()
+		cancelAction(ctx)
 		b.Discard()
 		return errCancelled
 	}
@@ -166,19 +175,19 @@ func (a *fakeAC) Put(ctx context.Context, d digest.Digest, b buffer.Buffer) erro
 	result := m.(*remoteexecution.ActionResult)
 	// Oracle: evaluated on the attempt, whatever happens to the write.
 	if !w.x.Free() {
-		w.checkACWrite(result)
+		w.checkACWrite(ctx, result)
 	}
 	if ctx.Err() != nil {
-		w.x.Point("ac.Put/cancelled")
+		w.x.Point("ac.Put/cancelled" + w.labelSuffix(ctx))
 		return errCancelled
 	}
-	switch w.x.Choose("ac.Put", 3) {
+	switch w.x.Choose("ac.Put"+w.labelSuffix(ctx), 3) {
 	case 1:
-		w.noteFault("ac.Put=unavailable", false)
+		w.noteFault(ctx, "ac.Put=unavailable", false)
 		return errInjected
 	case 2:
-		w.noteFault("ac.Put=cancelled", false)
-		w.cancelCurrent()
+		w.noteFault(ctx, "ac.Put=cancelled", false)
+		cancelAction(ctx)
 		return errCancelled
 	}
 	w.mu.Lock()
@@ -205,15 +214,13 @@ func attach(resp *remoteexecution.ExecuteResponse, err error) {
 
 func (e *fakeLocal) Execute(ctx context.Context, filePool pool.FilePool, monitor access.UnreadDirectoryMonitor, digestFunction digest.Function, request *remoteworker.DesiredState_Executing, executionStateUpdates chan<- *remoteworker.CurrentState_Executing) *remoteexecution.ExecuteResponse {
 	w := e.w
-	w.mu.Lock()
-	cfg := w.cur.cfg
-	w.mu.Unlock()
+	cfg := actionOf(ctx).cfg
 	resp := builder.NewDefaultExecuteResponse(request)
 	var ds []*remoteexecution.Digest
 	for _, name := range cfg.blobs {
 		d := w.digests[name]
-		if err := e.writer.Put(ctx, d, w.newBuffer(name)); err == nil {
-			w.ackedPut(name)
+		if err := e.writer.Put(ctx, d, w.newBuffer(ctx, name)); err == nil {
+			w.ackedPut(ctx, name)
 		} else if cfg.attach {
 			attach(resp, err)
 		}
